@@ -33,15 +33,20 @@ PLAN = {
     "C07": [("prop_case", 12000, 2048)],
     "C08": [("prop_case", 12000, 2048)],
     "C09": [("prop_case", 25000, 2048)],
-    "C10": [("prop_case", 30000, 2048), ("target_route", 400000, 64)],
+    "C10": [("prop_case", 12000, 2048), ("target_route", 400000, 64)],
     "C13": [("target_route", 400000, 64)],
     "C14": [("prop_case", 10000, 2048)],
-    "C15": [("prop_case", 5000, 2048)],
+    "C15": [("prop_case", 2400, 2048)],
     "C16": [("prop_case", 25000, 2048)],
     "C17": [("prop_case", 50000, 2048), ("spec_parse", 40000, 96)],
     "C18": [("prop_case", 80000, 2048)],
     "C19": [("prop_case", 2000, 2048)],
 }
+
+
+# new inputs per short-lived prop_case process (loggers with a flush interval leave a flusher thread
+# behind that wakes up every interval for the rest of the process: C15 and C10 build many of them)
+PER_ROUND = {"C15": 60, "C10": 120, "C01": 200, "C06": 200, "C07": 200}
 
 
 def build():
@@ -121,7 +126,7 @@ def main():
         # prop_case: flexi_logger's flusher and cleanup threads never end, so a job is a sequence
         # of short-lived processes over the same corpus directory (as the proptest workers are
         # recycled every chunk); the byte-level targets have no such threads and run in one go
-        per_round = 1200 if target == "prop_case" else runs
+        per_round = PER_ROUND.get(pid, 300) if target == "prop_case" else runs
         agg = {"target": target, "jobs": jobs, "new_inputs_per_job": runs, "max_len": max_len, "executions": 0,
                "distinct_nontrivial": 0, "corpus_units": 0, "cov_max": 0, "ft_max": 0, "samples": []}
         lock = threading.Lock()
